@@ -142,6 +142,9 @@ func (sb *smtBuilder) scan(t *Term, depth int, bound map[string]bool) {
 		if strings.HasPrefix(t.Op, "(") { // (as const ...)
 			return
 		}
+		if t.S != nil && t.S.Kind == KDT && len(t.S.Fields) == 0 && t.Op == "mk_"+t.S.Name {
+			return // the nullary constructor of a zero-field struct (EmptySpatial{}): declared with its datatype
+		}
 		sb.consts[t.Op] = t.S
 		return
 	}
@@ -581,6 +584,12 @@ var z3ematch = solverSpec{"z3-new(ematch)", func(f string, t int) []string {
 	return []string{"z3-new", fmt.Sprintf("-t:%d", t), "smt.mbqi=false", "smt.qi.max_multi_patterns=1000", f}
 }}
 
+// the older z3 with E-matching only and its automatic configuration off: decides some array/store goals with nested
+// quantifiers instantly where the newer release's E-matching loops; again only "unsat" is used
+var z3oldEmatch = solverSpec{"z3(ematch)", func(f string, t int) []string {
+	return []string{"z3", fmt.Sprintf("-t:%d", t), "smt.mbqi=false", "smt.auto_config=false", f}
+}}
+
 var solvers = []solverSpec{
 	{"z3-new", func(f string, t int) []string { return []string{"z3-new", fmt.Sprintf("-t:%d", t), f} }},
 	{"z3", func(f string, t int) []string { return []string{"z3", fmt.Sprintf("-t:%d", t), f} }},
@@ -848,8 +857,10 @@ func solveOne(w *World, o *Obligation, dir string, timeoutMs int) *OblResult {
 		seconds := []variant{firsts[1]}
 		if ufile != "" {
 			seconds = append(seconds, variant{ufile, solvers[2], "cvc5(uf-products)", false})
+			seconds = append(seconds, variant{ufile, z3oldEmatch, "z3(ematch,uf-products)", false})
 		} else {
 			seconds = append(seconds, variant{file, solvers[2], "cvc5", false})
+			seconds = append(seconds, variant{file, z3oldEmatch, "z3(ematch)", false})
 		}
 		ctx1, cancel1 := context.WithCancel(context.Background())
 		ch1 := make(chan SolveResult, len(seconds))
@@ -882,6 +893,7 @@ func solveOne(w *World, o *Obligation, dir string, timeoutMs int) *OblResult {
 	}
 	if hasQuant {
 		vs = append(vs, variant{file, z3ematch, "z3-new(ematch)", false})
+		vs = append(vs, variant{file, z3oldEmatch, "z3(ematch)", false})
 		if ufile != "" {
 			vs = append(vs, variant{ufile, z3ematch, "z3-new(ematch,uf-products)", false})
 		}
